@@ -13,8 +13,10 @@ argument.
 
 What is proved is stronger than "within one ulp": every entry point computes, on each component,
 *bit for bit* the same function `convF` (run-time forms) / `convStaticF` (compile-time forms) — the
-composition of the two traced unit kernels — and nothing else. The rounding clauses ("up to
-rounding") are in Props/C01.lean, which bounds the kernels themselves.
+composition of the two traced unit kernels — and nothing else. The rounding clauses: C01 bounds the
+kernels themselves; `read_back_in_the_same_unit` (below, with Theory/ReadBack.lean) shows that converting
+to the standard unit and back returns the original number to within twelve roundings, for every unit
+with a rational factor and scaling kernels, from exactly the facts C01's table check establishes.
 -/
 import PhQVerif.Theory.Convert
 import PhQVerif.Checkers
@@ -24,6 +26,8 @@ import PhQVerif.Generated.Obl_C02pairs32
 import PhQVerif.Generated.Obl_C02pairs64
 import PhQVerif.Generated.Obl_C02pairs80
 import PhQVerif.Generated.Obl_NarrowU
+import PhQVerif.Theory.ReadBack
+import PhQVerif.Props.C01
 
 namespace PhQVerif.Props.C02
 open PhQVerif Generated
@@ -105,10 +109,107 @@ theorem standard_unit_exact (L : Libm) (k : UnitKernels) (x : Fl) :
     convF L k k.standard k.standard x = some x := by
   simp [convF]
 
+/-! ### Reading back in the same unit -/
+
+/-- What C01's table check says about one scaling kernel whose unit's factor is rational (`want.k = 0`:
+no power of π — all but the angular units): the code's constant is a positive float within five
+roundings of the number `C` for which the kernel's exact factor `stepR d C` is the unit's factor `A`
+(to the standard unit) resp. `1/A` (from it). -/
+theorem scaling_kernel_constant {fm : Fm} {want : Meaning} {ts : Bool} {ke K : Expr} {d : Bool}
+    (hd : want.den ≠ 0) (hn : want.num ≠ 0) (hk0 : want.k = 0)
+    (hshape : kernelShape ke = .scale K d) (h : checkKernel fm 4 want ts ke = true) :
+    ∃ m e, K.evalF Libm.none (fun _ => .nan) = .fin false m e ∧ 0 < m ∧
+      ∃ C : ℝ, Within fm.fmt.u 5 (Fl.toReal (.fin false m e)) C ∧
+        stepR d C = (if ts then (want.num : ℝ) / want.den else (want.den : ℝ) / want.num) := by
+  have hnum : (0 : ℝ) < want.num := by exact_mod_cast Nat.pos_of_ne_zero hn
+  have hden : (0 : ℝ) < want.den := by exact_mod_cast Nat.pos_of_ne_zero hd
+  have hu0 : 0 ≤ fm.fmt.u := (Fl.u_pos _).le
+  have hu16 : fm.fmt.u ≤ 1 / 16 := by
+    unfold Fmt.u
+    have : (2 : ℝ) ^ (-(fm.fmt.p : Int)) ≤ (2 : ℝ) ^ (-(4 : Int)) :=
+      (zpow_le_zpow_iff_right₀ (by norm_num : (1 : ℝ) < 2)).mpr (by cases fm <;> decide)
+    exact this.trans (by norm_num)
+  have hE : (4 : ℝ) / 2 ^ fm.fmt.p = 4 * fm.fmt.u := by
+    unfold Fmt.u; rw [zpow_neg, zpow_natCast]; ring
+  have hencl : enclose want = ((want.num, want.den), (want.num, want.den)) := by
+    unfold enclose; simp [hk0]
+  unfold checkKernel at h
+  simp only [hshape, hencl] at h
+  cases hk : flPosRat (K.evalF Libm.none (fun _ => .nan)) with
+  | none => simp [hk] at h
+  | some k =>
+    simp only [hk] at h
+    obtain ⟨m, e, hv, hm, hreal⟩ := C01.flPosRat_real hk
+    refine ⟨m, e, hv, hm, ?_⟩
+    rw [← hv, ← hreal]
+    -- the four cases: direction × multiply/divide
+    have key : ∀ (lo : Nat × Nat) (C : ℝ), 0 < C → ratR lo = C → within k lo lo 4 fm.fmt.p = true →
+        Within fm.fmt.u 5 (ratR k) C := by
+      intro lo C hC hlo hw
+      obtain ⟨h1, h2⟩ := within_sound hw
+      rw [hlo] at h1 h2
+      simp only [Nat.cast_ofNat] at h1 h2
+      rw [hE] at h1 h2
+      apply within_of_rel hu0 hu16 hC
+      rw [abs_le]; constructor <;> nlinarith
+    cases ts <;> cases d <;> simp only [Bool.false_eq_true, if_false, if_true, invRat] at h
+    · -- from standard, multiply: K ≈ den/num
+      refine ⟨(want.den : ℝ) / want.num, key (want.den, want.num) _ (by positivity) rfl h, by simp [stepR]⟩
+    · -- from standard, divide: K ≈ num/den, factor 1/K
+      refine ⟨(want.num : ℝ) / want.den, key (want.num, want.den) _ (by positivity) rfl h, ?_⟩
+      simp [stepR]
+    · refine ⟨(want.num : ℝ) / want.den, key (want.num, want.den) _ (by positivity) rfl h, by simp [stepR]⟩
+    · refine ⟨(want.den : ℝ) / want.num, key (want.den, want.num) _ (by positivity) rfl h, ?_⟩
+      simp [stepR]
+
+/-- **C02 (construct in unit `u`, read back in unit `u`).** Take a unit whose factor is rational and
+whose two kernels are scalings (`x·K` or `x/K`) accepted by C01's table check (`kernels_match_their_symbols`
+establishes exactly these two `checkKernel` facts for every non-affine unit of every type and format).
+Then for every positive finite `x`, with no under- or overflow in either step, the value obtained by
+converting to the standard unit and back is within twelve roundings of `x`:
+`x·(1-u)^12 ≤ read back ≤ x/(1-u)^12` — "the original number up to rounding". (Values of the other sign
+behave identically, the operations being sign-symmetric; in the standard unit the result is `x` itself,
+`standard_unit_exact`.) -/
+theorem read_back_in_the_same_unit {fm : Fm} {want : Meaning} {ke1 ke2 K1 K2 : Expr} {d1 d2 : Bool}
+    (hd : want.den ≠ 0) (hn : want.num ≠ 0) (hk0 : want.k = 0)
+    (hs1 : kernelShape ke1 = .scale K1 d1) (hs2 : kernelShape ke2 = .scale K2 d2)
+    (h1 : checkKernel fm 4 want true ke1 = true) (h2 : checkKernel fm 4 want false ke2 = true)
+    (x : Fl) (hx : 0 < Fl.toReal x) :
+    let k1 := K1.evalF Libm.none (fun _ => .nan)
+    let k2 := K2.evalF Libm.none (fun _ => .nan)
+    fm.fmt.minNormal ≤ (if d1 then Fl.toReal x / Fl.toReal k1 else Fl.toReal x * Fl.toReal k1) →
+    (stepF fm.fmt d1 x k1).isFinite = true →
+    fm.fmt.minNormal ≤ (if d2 then Fl.toReal (stepF fm.fmt d1 x k1) / Fl.toReal k2
+                          else Fl.toReal (stepF fm.fmt d1 x k1) * Fl.toReal k2) →
+    (stepF fm.fmt d2 (stepF fm.fmt d1 x k1) k2).isFinite = true →
+    Within fm.fmt.u 12 (Fl.toReal (stepF fm.fmt d2 (stepF fm.fmt d1 x k1) k2)) (Fl.toReal x) := by
+  intro k1 k2 hn1 hf1 hn2 hf2
+  obtain ⟨m1, e1, hv1, _, C1, w1, c1⟩ := scaling_kernel_constant hd hn hk0 hs1 h1
+  obtain ⟨m2, e2, hv2, _, C2, w2, c2⟩ := scaling_kernel_constant hd hn hk0 hs2 h2
+  have hnum : (0 : ℝ) < want.num := by exact_mod_cast Nat.pos_of_ne_zero hn
+  have hden : (0 : ℝ) < want.den := by exact_mod_cast Nat.pos_of_ne_zero hd
+  have hu1 : fm.fmt.u < 1 := by
+    unfold Fmt.u
+    have : (2 : ℝ) ^ (-(fm.fmt.p : Int)) < (2 : ℝ) ^ (0 : Int) :=
+      (zpow_lt_zpow_iff_right₀ (by norm_num : (1 : ℝ) < 2)).mpr (by cases fm <;> decide)
+    simpa using this
+  have hcancel : stepR d1 C1 * stepR d2 C2 = 1 := by
+    rw [c1, c2]; simp only [if_true, Bool.false_eq_true, if_false]; field_simp
+  rw [← hv1] at w1
+  rw [← hv2] at w2
+  exact read_back fm.fmt (fm_p_pos fm) (Fl.u_pos _).le hu1 le_rfl x k1 k2 d1 d2 hx w1 w2 hcancel hn1 hf1 hn2 hf2
+
 /-! ### Non-vacuity -/
 
 example : Chk.C02unit (f64.«unit::Convert<Length>(Dyad)@1,2») = true := by decide
 example : (f32.«Speed::ctor(num,Unit::Speed)[KilometrePerHour]»).enumArgs ≠ [] := by decide
 example : convertPairsByType64 ≠ [] := by simp [convertPairsByType64]
+-- the hypotheses of `read_back_in_the_same_unit` are met, e.g. by the nautical mile in `float`
+example : checkKernel .f32 4 ⟨1852, 1, 0, ⟨0, 1, 0, 0, 0, 0, 0⟩⟩ true
+    (.bin .mul .f32 (.var 0 .f32) (.cast .f32 (.lit .f80 false 463 2))) = true ∧
+  checkKernel .f32 4 ⟨1852, 1, 0, ⟨0, 1, 0, 0, 0, 0, 0⟩⟩ false
+    (.bin .div .f32 (.var 0 .f32) (.cast .f32 (.lit .f80 false 463 2))) = true := by decide +kernel
+example : kernelShape (.bin .div .f32 (.var 0 .f32) (.cast .f32 (.lit .f80 false 463 2))) =
+    .scale (.cast .f32 (.lit .f80 false 463 2)) true := rfl
 
 end PhQVerif.Props.C02
